@@ -74,6 +74,7 @@ func (c06) Gen(r *core.Rng, tier string, idx int) *core.Trace {
 }
 
 var isoNames = []string{"README.TXT", "data.bin", "Makefile", "long-file-name-with-many-chars.extension", "UPPER", "a.b", "index.html", "x", "notes.md", "mixed.Case.Name", "_under", "file with space.txt"}
+
 // names that collide after the 8.3 mapping, and siblings whose own name equals a name the collision resolution generates
 var isoCollide = []string{"collision-name-aaaa.txt", "collision-name-bbbb.txt", "collision-name-cccc.txt", "COLLISIO.TXT", "collision.text", "collision.texu", "collisi1.txt", "collisi2.txt", "collis10.txt", "COLLISI3.TXT"}
 
